@@ -69,7 +69,7 @@ def run_case(spec):
         "violations": viol,
         "nontrivial": nontrivial,
         "counters": {"delivered": delivered, "adv_out_of_order": adv.out_of_order, "adv_dups": adv.dups,
-                     "drops": drv.drops_done, "drops_skipped": drv.drops_skipped,
+                     "drops": drv.drops_done, "drops_skipped": drv.drops_skipped, **{"drop_" + k: v for k, v in drv.drop_kinds.items()},
                      "complete": int(drv.all_delivered()), "steps": world.step,
                      "kind_" + spec["kind"]: 1,
                      "notrans_seen": len(MON.notrans), "log_errors_seen": len(MON.errors)},
